@@ -106,6 +106,7 @@ theorem mapM_mem {α β} (f : α → Option β) : ∀ (l : List α) (r : List β
 
 theorem parse_blocks_ok (str : List Char) (bs : List Block) (h : parse str = some bs) : ∀ k ∈ bs, SpecOK k := by
   rw [parse_eq_spec] at h
+  have h := (specParse_some str bs h).2
   intro k hk
   obtain ⟨x, _, hx⟩ := mapM_mem specBlock _ bs h k hk
   exact specBlock_ok x k hx
@@ -131,6 +132,32 @@ theorem range_no_zero_stride (str : List Char) (bs : List Block) (h : parse str 
 theorem range_rejects_empty_field (blk : List Char) (h : [] ∈ splitAll (· = ':') blk) : parseBlock blk = none := by
   rw [parseBlock_eq_spec]; unfold specBlock
   rw [mapM_none_of_mem toIntFull _ [] h toIntFull_nil]
+
+theorem comma_count_exposes_empty (s : List Char) (h : [] ∈ splitAll (· = ',') s) :
+    countChar ',' s + 1 ≠ (tokenize (· = ',') s).length := by
+  have hlen := splitAll_length (fun c => decide (c = ',')) s
+  have hlt := filter_length_lt_of_mem (fun t : List Char => !t.isEmpty) _ [] h (by simp)
+  unfold tokenize countChar
+  omega
+
+/-- an expression with an empty block between commas (`1,,3`, `1,3,`, `,1`) is rejected: the tokenizer drops empty blocks, the comma count exposes them -/
+theorem range_rejects_empty_block (str : List Char) (h : [] ∈ splitAll (· = ',') (str.filter (· ≠ ' ')))
+    (hne : str.filter (· ≠ ' ') ≠ []) : parse str = none := by
+  unfold parse
+  have : outerOK str = false := by
+    unfold outerOK
+    generalize str.filter (· ≠ ' ') = s at h hne
+    have hc := comma_count_exposes_empty s h
+    cases s with
+    | nil => exact absurd rfl hne
+    | cons a t => simp [hc]
+  simp [this]
+
+/-- the outer shape in examples: empty blocks and blanks inside a number are refused, blanks around numbers and separators are not, the empty
+    expression is the empty range -/
+example : parse "1,,3".toList = none ∧ parse "1,3,".toList = none ∧ parse ",".toList = none ∧ parse "1 2:30".toList = none ∧
+    parse "1:2  0".toList = none ∧ parse " 1 : 2 , 5 ".toList = some [⟨1, 1, 2⟩, ⟨5, 1, 5⟩] ∧ parse "".toList = some [] ∧
+    parse " - 2".toList = some [⟨-2, 1, -2⟩] := by decide
 
 /-- what the denotation is, spelled out: the `i`-th value of a block is `b + i·s`, all between `b` and `e` -/
 theorem denoteBlock_get (k : Block) (i : Nat) (hi : i < count k) :
